@@ -477,11 +477,11 @@ class DynDiGraph(nx.DiGraph):
         for n, nbrs in nodes_nbrs_succ:
             for nbr in nbrs:
                 if t is not None:
-                    if nbr not in seen and self.__presence_test(n, nbr, t):
+                    if self.__presence_test(n, nbr, t):
                         yield n, nbr, {"t": [t]}
                 else:
                     if nbr not in seen:
-                        yield nbr, n, self._succ[n][nbr]
+                        yield n, nbr, self._succ[n][nbr]
             seen[n] = 1
 
         del seen
